@@ -94,6 +94,25 @@ def worker(a):
                 if not (abs(Fc - want3) <= tol):
                     out.append("StructureFactor on the same atom objects in a cell with the same edge lengths and another angle = %r, explicit sum = %r "
                                "(|diff| %.3g): something remembered per (a, b, c) is reused (%s)" % (Fc, want3, abs(Fc - want3), tag))
+        # a split site: the atom sits 3e-6 away from a special position and is DECLARED general (symmulti = number of operations, half
+        # occupancy) - disorder over a symmetry element.  The sum over the cell is the plain sum over all operations; images that nearly
+        # coincide are still separate atoms because the caller says so
+        r0 = recs[0]
+        if len(r0["orbit"]) < tab["nsymop"]:
+            N0 = r0["cs"]["N"]
+            p_split = [x / N0 + d_ for x, d_ in zip(r0["cs"]["p"], (3e-6, 2e-6, 1e-6))]
+            el0 = spec[0]["el"]
+            f_ = S.f0(ff[el0], c * S.qform(met, h) / 4.0)
+            tot_ = 0j
+            hv = np.array(h, dtype=float)
+            for R_, t_ in zip(tab["rot"], tab["trans"]):
+                img = np.array(R_, dtype=float).dot(np.array(p_split)) + np.array(t_, dtype=float) / 24.0
+                tot_ += cmath.exp(2j * math.pi * hv.dot(img))
+            want_s = 0.5 * f_ * tot_
+            Fs = S.call_sf(h, cell, name, [S.make_atom("X1", el0, p_split, None, 0.0, 0.5, tab["nsymop"])], None)
+            if not (abs(Fs - want_s) <= tol + 1e-4 * abs(f_) * tab["nsymop"] * sum(abs(q_) for q_ in h) * 1e-3):
+                out.append("StructureFactor of an atom declared general (symmulti = %d) 3e-6 from a special position = %r, sum over all operations = %r "
+                           "(the declared multiplicity is part of the input) (%s)" % (tab["nsymop"], Fs, want_s, tag))
         # corollaries
         sh_atoms = [S.make_atom(a_.label, a_.atomtype, [x + d for x, d in zip(a_.pos, (1, -2, 3))], a_.adp_type, a_.adp, a_.occ, a_.symmulti)
                     for a_ in atoms]
